@@ -72,9 +72,28 @@ let handle (i : string list) (o : string list) =
     let altered = (channel = "flip" || channel = "trunc") in
     (* tables *)
     let ftbl = Hashtbl.create 8 and gtbl = Hashtbl.create 8 in
+    let atbl = Hashtbl.create 8 in       (* toi -> (transfer count, metadata the sender was given) *)
+    let finsts = ref [] in               (* (fdt id, parsed instance, number of packets) *)
+    let refused = ref [] in
+    let parse_meta fields =
+      (match fields with
+       | [cl; ct; clen; tlen; md5; groups; etag; cache] ->
+         let cc = (match cache.[0] with
+             | 'N' -> (n_of_int 0, N0) | 'S' -> (n_of_int 1, N0)
+             | 'E' -> (n_of_int 2, n_of_int (int_of_string (String.sub cache 1 (String.length cache - 1))))
+             | _ -> (n_of_int 3, N0)) in
+         { m_cl = bytes_of_hex cl; m_ctype = opt bytes_of_hex ct; m_clen = opt n_of_hex clen; m_tlen = opt n_of_hex tlen;
+           m_md5 = opt bytes_of_hex md5;
+           m_groups = (if groups = "-" then [] else List.map bytes_of_hex (String.split_on_char '.' groups));
+           m_etag = opt bytes_of_hex etag; m_cache = cc }
+       | _ -> failwith "meta fields") in
+    let wmeta : (string * string, ometa) Hashtbl.t = Hashtbl.create 8 in
     List.iter (fun tok -> match split_tilde tok with
         | ["F"; xml; inst] -> Hashtbl.replace ftbl xml inst
+        | ["F"; xml; inst; id; npk] -> Hashtbl.replace ftbl xml inst; finsts := (id, inst, int_of_string ("0x" ^ npk)) :: !finsts
         | ["G"; toi; ce; transfer; content] -> Hashtbl.replace gtbl (n_of_hex toi) (cenc_of ce, bytes_of_hex transfer, bytes_of_hex content)
+        | "A" :: toi :: tc :: fields -> Hashtbl.replace atbl (n_of_hex toi) (int_of_string tc, parse_meta fields)
+        | ["R"; idx; tlen] -> refused := (int_of_string idx, n_of_hex tlen) :: !refused
         | _ -> ()) o;
     let abstain = ref (altered && get "cenc" "null" <> "null") in
     let parse_fdt (xml : n list) : fdtinst option =
@@ -158,12 +177,15 @@ let handle (i : string list) (o : string list) =
     let dropped = ref false in
     let impl_panic = ref false in
     let c17_fail = ref None in
+    let got_syms = ref [] in
+    let fdt_pkts = ref [] in
     let max_ledger = ref 0 in
     let nev = ref 0 in
     let last_model_q = ref (0, 0) in
     List.iter (fun tok ->
       match split_tilde tok with
-      | "F" :: _ | "G" :: _ -> ()
+      | "F" :: _ | "G" :: _ | "A" :: _ | "R" :: _ -> ()
+      | "c" :: "M" :: toi :: n :: fields -> Hashtbl.replace wmeta (toi, n) (parse_meta fields)
       | ["c"; "B"; toi; ans] -> impl_builder := (toi, ans) :: !impl_builder
       | ["c"; "O"; toi; n; ok] -> add_call (toi, n) (CallOpen (ok = "1"))
       | ["c"; "W"; toi; n; data; ok] -> add_call (toi, n) (CallWrite (bytes_of_hex data, ok = "1"))
@@ -201,6 +223,14 @@ let handle (i : string list) (o : string list) =
                              match List.rev (String.split_on_char ',' oti) with
                              | tl :: rest -> Some (oti_of (String.concat "," (List.rev rest)), n_of_hex tl)
                              | [] -> None) in
+              (if toi <> "0" then
+                 let pidb = bytes_of_hex pid in
+                 (match fec_of_cp (n_of_hex cp) with
+                  | Some f -> (match parse_pid f pidb with
+                      | Some ((sbn, esi), _) -> got_syms := (n_of_hex toi, (sbn, esi)) :: !got_syms
+                      | None -> ())
+                  | None -> ())
+               else fdt_pkts := (fdtid, pid) :: !fdt_pkts);
               let p = { a_toi = n_of_hex toi; a_close_obj = (flags land 1 = 1); a_close_sess = (flags land 2 = 2);
                         a_fdt_id = opt n_of_hex fdtid; a_oti = a_oti; a_cenc = opt cenc_of ce; a_sct = opt z_of_string sct;
                         a_cp = n_of_hex cp; a_pidbytes = bytes_of_hex pid; a_payload = bytes_of_hex payload;
@@ -255,6 +285,8 @@ let handle (i : string list) (o : string list) =
     end;
     (* predicates on the implementation's callbacks *)
     let pfail = ref None in
+    let known_cls = ref None in
+    let n_recoverable = ref 0 in
     let nwriters = ref 0 in
     List.iter (fun (toi, n) ->
       incr nwriters;
@@ -274,6 +306,58 @@ let handle (i : string list) (o : string list) =
           if not (p_C03_writer ct guarded cs) then pfail := Some (Printf.sprintf "P_C03_writer:%s.%s" toi n)
         | None -> ()
       end) keys;
+    if prop = "c01" || prop = "c02" || prop = "c16" then begin
+      let known = ref None in
+      Hashtbl.iter (fun toi (tc, given) ->
+        let toi_s = hex_of_n toi in
+        let ws = List.filter_map (fun (t, n) ->
+            if t = toi_s then
+              Some ((try Hashtbl.find wmeta (t, n) with Not_found -> given), List.rev (Hashtbl.find impl_calls (t, n)))
+            else None) keys in
+        (* writers that were created but never called (builder answered store, nothing else) do not exist in impl_calls *)
+        match Hashtbl.find_opt gtbl toi with
+        | None -> ()
+        | Some (_, transfer, content) ->
+          if prop = "c01" then begin
+            let once = (get "once" "1" = "1") in
+            let copies = if once then 1 else tc in
+            if not (p_C01_object given content (n_of_int copies) ws) then begin
+              (* recorded finding D20: no-cache objects are not remembered as completed *)
+              let nocache = (fst given.m_cache = N0) in
+              if once && nocache && tc >= 2 && p_C01_object given content (n_of_int tc) ws then known := Some "D20"
+              else pfail := Some (Printf.sprintf "P_C01_object:toi=%s" toi_s)
+            end
+          end else begin
+            (* recoverability premise from what arrived *)
+            let e = n_of_int (int_of_string (get "e" "16")) and b = n_of_int (int_of_string (get "b" "4")) in
+            let tl = n_of_int (List.length transfer) in
+            let (((al, as_), nal), nblk) = block_partitioning b tl e in
+            let ks = List.init (int_of_n nblk) (fun i -> if i < int_of_n nal then al else as_) in
+            let fec = get "fec" "nocode" in
+            let rs = (fec = "rs28" || fec = "rs28us") in
+            let got = List.filter_map (fun (t, se) -> if t = toi then Some se else None) !got_syms in
+            (* an FDT instance listing the object must have arrived completely: every instance of this
+               session travels in ceil(len/1400) packets; the driver counts distinct (id, payload id) *)
+            let fdt_ok = List.exists (fun (id, inst, npk) ->
+                let lists = (match String.split_on_char '/' inst with
+                    | [_; _; files] -> List.exists (fun f -> match String.split_on_char ':' f with t :: _ -> t = toi_s | [] -> false)
+                                         (String.split_on_char '+' files)
+                    | _ -> false) in
+                let arrived = List.length (List.sort_uniq compare (List.filter_map (fun (i, pid) -> if i = id then Some pid else None) !fdt_pkts)) in
+                lists && arrived >= npk) !finsts in
+            let recoverable = fdt_ok && ks <> [] && blocks_recoverable rs (n_of_int (int_of_string (get "par" "0"))) ks N0 got
+                              && get "bld" "S" = "S" && get "opn" "1" = "1" && get "wrf" "-" = "-" && not altered
+                              (* stated premises of C02: relative order preserved, no receiver drop / cleanup in between,
+                                 genuine FDT, the default (large) cache limit *)
+                              && List.mem channel ["all"; "sub"; "dup"; "lossdup"; "late"; "mask"]
+                              && not (List.exists (fun sct -> sct <> [] && List.hd sct = "E") secs)
+                              && get "fdtmut" "-" = "-"
+                              && (try int_of_string (get "cache" "10485760") >= 1048576 with _ -> true) in
+            if not (p_C02_object recoverable content ws) then pfail := Some (Printf.sprintf "P_%s_object:toi=%s" (String.uppercase_ascii prop) toi_s)
+            else if recoverable then incr n_recoverable
+          end) atbl;
+      (match !known, !pfail with Some k, None -> known_cls := Some k | _ -> ())
+    end;
     if prop = "c17" then (match !c17_fail with Some w -> pfail := Some w | None -> ());
     if !impl_panic then pfail := Some "receiver-panicked";
     if !abstain then diff := None;
@@ -281,6 +365,7 @@ let handle (i : string list) (o : string list) =
      | Some why, Some d -> verdict_both why d
      | Some why, None -> verdict_pfail why
      | None, Some d -> verdict_diff d
-     | None, None -> verdict_ok (if prop = "c17" then (!max_ledger > 0 && not !abstain) else (!nwriters >= 1 && not !abstain)))
+     | None, None when !known_cls <> None -> (match !known_cls with Some k -> verdict_known k | None -> ())
+     | None, None -> verdict_ok (if prop = "c02" || prop = "c16" then (!n_recoverable > 0) else if prop = "c17" then (!max_ledger > 0 && not !abstain) else (!nwriters >= 1 && not !abstain)))
 
 let () = run_driver handle
